@@ -9,6 +9,7 @@ import JumanjiModel.Env.LBF.Bounds
 import JumanjiModel.Env.LBF.Gen
 import JumanjiModel.Env.LBF.Episode
 import JumanjiModel.Env.LBF.Reward
+import JumanjiModel.Env.LBF.SpecValid
 open Jm Jx LBF
 
 namespace Props.C04
@@ -506,4 +507,134 @@ theorem lbf_obs_bounds_cover (cfg : Cfg) (A L : Nat) (o : Obs) :
 example : BInv ⟨5, 1, 7, true, true, 0⟩ 2 2
       ⟨[⟨0, (1, 1), 1, false⟩, ⟨1, (1, 2), 2, false⟩], [⟨0, (2, 2), 3, false⟩, ⟨1, (3, 0), 4, true⟩], 0⟩ ∧
     ([4, 5] : List Nat).length = 2 ∧ (∀ a ∈ ([4, 5] : List Nat), a < 6) ∧ (0 : Int) ≤ 0 ∧ (0 : Int) < 7 := by decide
+/-! #### (wave 4) membership in the DECLARED specs: structure, shapes, dtypes and bounds -/
+open Sp PzS PkS MaS
+
+/-- the model's `obsSpec` / `actionSpec` / reward and discount specs ARE the specs generated from the real spec objects
+(Gen/Specs.lean) for the two catalogue configurations: `LevelBasedForaging(RandomGenerator(grid_size=6, num_agents=2, num_food=2,
+fov=2), time_limit=8)` (vector observer: `agents_view` (2, 12) int32 in `[−1, 6]`) — all leaves — and the grid-observer
+configuration (grid 7, 3 agents, 2 foods, fov 7, time_limit 6) — `action_mask` and `step_count`; its `agents_view` leaf
+(3·3·15·15 = 2025 elements) is beyond the 160-element cut of the generated table and is compared with the real spec object at
+run time by the `lbf.spec` op in every C09 / C12 sweep -/
+theorem lbf_obsSpec_generated :
+    prefixed "observation_spec." (obsSpec ⟨6, 2, 8, false, true, 0⟩ 2 2 2) = declared "lbf-6x2" "observation_spec." ∧
+    prefixed "observation_spec." ((obsSpec ⟨7, 7, 6, true, true, 0⟩ 3 2 2).tail) = declared "lbf-grid" "observation_spec." ∧
+    [("action_spec", actionSpec 2)] = declared "lbf-6x2" "action_spec" ∧
+    [("action_spec", actionSpec 3)] = declared "lbf-grid" "action_spec" ∧
+    [("reward_spec", rewardSpecN 2)] = declared "lbf-6x2" "reward_spec" ∧
+    [("reward_spec", rewardSpecN 3)] = declared "lbf-grid" "reward_spec" ∧
+    [("discount_spec", discountSpecN 2)] = declared "lbf-6x2" "discount_spec" ∧
+    [("discount_spec", discountSpecN 3)] = declared "lbf-grid" "discount_spec" := by
+  refine ⟨by decide, by decide, by decide, by decide, by decide, by decide, by decide, by decide⟩
+
+/-- the invariant behind the membership theorems (`BInv` plus the entity counts and a non-negative counter) is established
+by the generator for EVERY valid draw and preserved by EVERY in-spec joint action (one entry `< 6` per agent; legal or not,
+collisions or not, MID or LAST) -/
+theorem lbf_specInv_invariant (cfg : Cfg) (A F L : Nat) :
+    (∀ (gc : GenCfg) (d : GenDraw), cfg.gridSize = gc.gridSize → gc.maxAgentLevel = (L : Int) → gc.numAgents = A →
+      gc.numFood = F → validDraw gc d = true → SpecInv cfg A F L (generate gc d)) ∧
+    (∀ (s : State) (as : List Nat), SpecInv cfg A F L s → as.length = A → (∀ a ∈ as, a < 6) →
+      SpecInv cfg A F L (step cfg s (as.map Int.ofNat)).1) :=
+  ⟨fun gc d hg hL hA hF h => hA ▸ hF ▸ LBF.gen_specInv cfg gc L hg hL d h,
+   fun s as h hl ha => LBF.step_specInv cfg A F L s h as hl ha⟩
+
+/-- the shapes of what the observers emit, for EVERY state: `3·(A + F)` numbers per agent (vector observer, at least one
+agent), an `(A, 3, 2·fov + 1, 2·fov + 1)` array (grid observer), an `(A, 6)` mask -/
+theorem lbf_view_shapes (g fov : Nat) (s : State) :
+    (0 < s.agents.length → Rect2 (s.agents.map (vectorView fov s)) s.agents.length (3 * (s.agents.length + s.foods.length))) ∧
+    Rect4 (gridView g fov s) s.agents.length 3 (2 * fov + 1) (2 * fov + 1) ∧ Rect2 (masks g s) s.agents.length 6 :=
+  ⟨LBF.vecView_rect fov s, LBF.gridView_rect g fov s, LBF.masks_rect g s⟩
+
+/-- the `reset` observation is accepted by `observation_spec.validate` for EVERY valid draw of the generator — both
+observers, every grid size, `fov`, number of agents (≥ 1) and foods, `time_limit ≥ 0` -/
+theorem lbf_reset_obs_valid (cfg : Cfg) (gc : GenCfg) (L : Nat) (hg : cfg.gridSize = gc.gridSize)
+    (hL : gc.maxAgentLevel = (L : Int)) (hA : 0 < gc.numAgents) (hT : 0 ≤ cfg.timeLimit) (d : GenDraw)
+    (h : validDraw gc d = true) :
+    (obsSpec cfg gc.numAgents gc.numFood L).valid (toNValue (resetTs cfg (generate gc d)).obs) = true :=
+  LBF.reset_obs_valid cfg _ _ L hA hT _ (LBF.gen_specInv cfg gc L hg hL d h) (gen_fresh_start gc d).1
+
+/-- … and on any state satisfying the invariant with counter 0 -/
+theorem lbf_reset_obs_valid_of_inv (cfg : Cfg) (A F L : Nat) (hA : 0 < A) (hT : 0 ≤ cfg.timeLimit) (s : State)
+    (h : SpecInv cfg A F L s) (h0 : s.stepCount = 0) :
+    (obsSpec cfg A F L).valid (toNValue (resetTs cfg s).obs) = true := LBF.reset_obs_valid cfg A F L hA hT s h h0
+
+/-- the observation of EVERY in-spec `step` (legal or not, MID or LAST — the step that collects the last food and the one
+that reaches the time limit included) from every state with the invariant whose counter has not reached the limit -/
+theorem lbf_step_obs_valid (cfg : Cfg) (A F L : Nat) (hA : 0 < A) (s : State) (h : SpecInv cfg A F L s)
+    (hlim : s.stepCount < cfg.timeLimit) (as : List Nat) (hlen : as.length = A) (has : ∀ a ∈ as, a < 6) :
+    (obsSpec cfg A F L).valid (toNValue (step cfg s (as.map Int.ofNat)).2.obs) = true :=
+  LBF.step_obs_valid cfg A F L hA s h hlim as hlen has
+
+example : SpecInv ⟨5, 1, 7, true, true, 0⟩ 2 2 2
+      ⟨[⟨0, (1, 1), 1, false⟩, ⟨1, (1, 2), 2, false⟩], [⟨0, (2, 2), 3, false⟩, ⟨1, (3, 0), 4, true⟩], 0⟩ := by decide
+
+/-- WHOLE EPISODES: along the rollout (`Ep.rollout` = the L1 step iterated) of ANY in-spec joint actions from the reset state
+of ANY valid draw of the generator, every observation emitted by one of the first `time_limit` steps is a member of the spec;
+step `time_limit` is LAST (`lbf_episode_last_by_limit`), so this covers every observation of every episode incl. the terminal one -/
+theorem lbf_obs_valid_along (cfg : Cfg) (gc : GenCfg) (L : Nat) (hg : cfg.gridSize = gc.gridSize)
+    (hL : gc.maxAgentLevel = (L : Int)) (hA : 0 < gc.numAgents) (d : GenDraw) (h : validDraw gc d = true)
+    (as : List (List Nat)) (has : ∀ a ∈ as, a.length = gc.numAgents ∧ ∀ x ∈ a, x < 6) (j : Nat)
+    (hj : (j : Int) < cfg.timeLimit) (e : State × TimeStep Obs)
+    (he : (Ep.rollout (fun s (a : List Nat) => step cfg s (a.map Int.ofNat)) (generate gc d) as)[j]? = some e) :
+    (obsSpec cfg gc.numAgents gc.numFood L).valid (toNValue e.2.obs) = true :=
+  LBF.rollout_obs_valid cfg _ _ L hA _ (LBF.gen_specInv cfg gc L hg hL d h) (gen_fresh_start gc d).1 as has j hj e he
+
+theorem lbf_rollout_obs_valid (cfg : Cfg) (A F L : Nat) (hA : 0 < A) (s0 : State) (h : SpecInv cfg A F L s0)
+    (h0 : s0.stepCount = 0) (as : List (List Nat)) (has : ∀ a ∈ as, a.length = A ∧ ∀ x ∈ a, x < 6) (j : Nat)
+    (hj : (j : Int) < cfg.timeLimit) (e : State × TimeStep Obs)
+    (he : (Ep.rollout (fun s (a : List Nat) => step cfg s (a.map Int.ofNat)) s0 as)[j]? = some e) :
+    (obsSpec cfg A F L).valid (toNValue e.2.obs) = true := LBF.rollout_obs_valid cfg A F L hA s0 h h0 as has j hj e he
+
+/-- what membership means: `validate` accepts an observation ONLY IF the view has the declared shape of the configured
+observer, every entry lies between the observer's minimum (−1 vector, 0 grid) and `max(A·L, L, grid_size)`, the mask is
+`(A, 6)` and the counter lies in `[0, time_limit]` -/
+theorem lbf_obs_valid_only (cfg : Cfg) (A F L : Nat) (o : Obs) (h : (obsSpec cfg A F L).valid (toNValue o) = true) :
+    (viewArr o.view).shape = (if cfg.gridObs then [A, 3, 2 * cfg.fov + 1, 2 * cfg.fov + 1] else [A, 3 * (A + F)]) ∧
+    (∀ x ∈ viewInts o.view, (if cfg.gridObs then 0 else -1) ≤ x ∧ x ≤ specMax cfg A L) ∧
+    shape2 o.mask = [A, 6] ∧ o.mask.flatten.length = A * 6 ∧ 0 ≤ o.stepCount ∧ o.stepCount ≤ cfg.timeLimit :=
+  LBF.obs_valid_only cfg A F L o h
+
+/-- positive: reset observations under both observers and the observation after a step; negative: a counter beyond the limit,
+the vector view offered to the grid spec, the spec of three agents, a view entry above the maximum -/
+example :
+    let s : State := ⟨[⟨0, (1, 1), 1, false⟩, ⟨1, (1, 2), 2, false⟩], [⟨0, (2, 2), 3, false⟩, ⟨1, (3, 0), 4, true⟩], 0⟩
+    let cg : Cfg := ⟨5, 1, 7, true, true, 0⟩
+    let cv : Cfg := ⟨5, 1, 7, false, true, 0⟩
+    (obsSpec cg 2 2 2).valid (toNValue (resetTs cg s).obs) = true ∧
+    (obsSpec cv 2 2 2).valid (toNValue (resetTs cv s).obs) = true ∧
+    (obsSpec cv 2 2 2).valid (toNValue (step cv s [4, 5]).2.obs) = true ∧
+    (obsSpec cv 2 2 2).valid (toNValue { (resetTs cv s).obs with stepCount := 8 }) = false ∧
+    (obsSpec cg 2 2 2).valid (toNValue (resetTs cv s).obs) = false ∧
+    (obsSpec cv 3 2 2).valid (toNValue (resetTs cv s).obs) = false ∧
+    (obsSpec cv 2 2 2).valid (toNValue { (resetTs cv s).obs with
+      view := .vec [[6, 0, 0, 0, 0, 0, 0, 0, 0, 0, 0, 0], [0, 0, 0, 0, 0, 0, 0, 0, 0, 0, 0, 0]] }) = false := by
+  decide +kernel
+
+/-- reward and discount of EVERY step from a state with `A` agents (any integers as joint action) and of `reset` are accepted
+by `reward_spec` (Array((A,), float)) and `discount_spec` (BoundedArray((A,), float, 0, 1)) -/
+theorem lbf_reward_discount_valid (cfg : Cfg) (A : Nat) (s : State) (hl : s.agents.length = A) (a : List Int) :
+    (rewardSpecN A).valid (vecArr (step cfg s a).2.reward) = true ∧
+    (discountSpecN A).valid (vecArr (step cfg s a).2.discount) = true ∧
+    (rewardSpecN A).valid (vecArr (resetTs cfg s).reward) = true ∧
+    (discountSpecN A).valid (vecArr (resetTs cfg s).discount) = true :=
+  ⟨(LBF.step_reward_discount_valid cfg A s hl a).1, (LBF.step_reward_discount_valid cfg A s hl a).2,
+   (LBF.reset_reward_discount_valid cfg A s hl).1, (LBF.reset_reward_discount_valid cfg A s hl).2⟩
+
+/-- `action_spec.generate_value()` = the all-no-op joint action: the action spec is well-formed, the generated value is a
+member, and `step` answers it from every state with the invariant (counter below the limit) with a non-FIRST timestep whose
+observation, reward and discount are members of their specs -/
+theorem lbf_accepts_generate_value (cfg : Cfg) (A F L : Nat) (hA : 0 < A) (s : State) (h : SpecInv cfg A F L s)
+    (hlim : s.stepCount < cfg.timeLimit) :
+    (actionSpec A).WF = true ∧ (actionSpec A).valid (actionSpec A).generate = true ∧
+    (actionSpec A).generate = actionArr ((List.replicate A 0).map Int.ofNat) ∧
+    (obsSpec cfg A F L).valid (toNValue (step cfg s ((List.replicate A 0).map Int.ofNat)).2.obs) = true ∧
+    (rewardSpecN A).valid (vecArr (step cfg s ((List.replicate A 0).map Int.ofNat)).2.reward) = true ∧
+    (discountSpecN A).valid (vecArr (step cfg s ((List.replicate A 0).map Int.ofNat)).2.discount) = true ∧
+    (step cfg s ((List.replicate A 0).map Int.ofNat)).2.stepType ≠ .first :=
+  LBF.accepts_generate_value cfg A F L hA s h hlim
+
+/-- membership in `action_spec` is "one entry per agent, each one of 0 … 5" -/
+theorem lbf_action_spec_iff (A : Nat) (as : List Int) :
+    (actionSpec A).valid (actionArr as) = true ↔ as.length = A ∧ ∀ a ∈ as, 0 ≤ a ∧ a < 6 :=
+  actionSpecN_valid_iff A 6 as
 end Props.C01
